@@ -176,7 +176,18 @@ static void length_case(long hist, int type, int is_signed)
 static void random_payload(pl_t *p, int64_t now, int64_t lw_exp, int64_t lw_nbf)
 {
 	static const char *NM[3] = { "iss", "sub", "aud" };
+	/* member order varies: the time claims before, after or between the string claims (a third party's serialiser need not sort) */
+	int order = (int)vh_below(&rng, 3);
 	pl_init(p);
+	if (order) {
+		for (int t = 0; t < (order == 1 ? 3 : 1); t++) {
+			switch (vh_below(&rng, 8)) {
+			case 0: case 1: break;
+			case 2: pl_add_raw(p, NM[t], ODD_ACTUAL[vh_below(&rng, NODD)]); break;
+			default: pl_add_str(p, NM[t], STRS[vh_below(&rng, NSTRS)]); break;
+			}
+		}
+	}
 	for (int which = 0; which < 2; which++) {
 		const char *nm = which ? "nbf" : "exp";
 		int64_t eff = (which ? lw_nbf : lw_exp), b;
@@ -191,7 +202,7 @@ static void random_payload(pl_t *p, int64_t now, int64_t lw_exp, int64_t lw_nbf)
 		default: pl_add_int(p, nm, which ? 0 : INT64_MAX); break;
 		}
 	}
-	for (int t = 0; t < 3; t++) {
+	for (int t = (order == 0 ? 0 : order == 1 ? 3 : 1); t < 3; t++) {
 		switch (vh_below(&rng, 8)) {
 		case 0: case 1: break;
 		case 2: pl_add_raw(p, NM[t], ODD_ACTUAL[vh_below(&rng, NODD)]); break;
